@@ -23,7 +23,9 @@ ALPHA = ['{', '}', '[', ']', '$', '$$', '\\', '\\begin{xenv}', '\\end{yenv}',
          '\\%', '\\\\', 'é', '\\end{verbatim}', '\\end{lstlisting}', '\\end{equation}',
          '\\end{document}', '\\end{Verbatim}', '\\begin{equation}', '\\]', '\\end',
          # literals that also occur outside the comment in some contexts
-         '\\keep{1}', '\\keep', '\\begin{center}', '\\outer{p ']
+         '\\keep{1}', '\\keep', '\\begin{center}', '\\outer{p ',
+         # line boundaries for str.splitlines(), ordinary characters for the parser
+         '\x0b', '\x0c', '\x1c', '\x1d', '\x1e', '\x85', '\u2028', '\u2029', '\xa0']
 GHOSTS = ['ghost', 'xenv', 'yenv', 'verbatim', 'end', 'lstlisting', 'document']
 # every form of search (find_all / count / find / attribute access), by name,
 # by list of names and by full expression, must be blind to the payload
